@@ -65,6 +65,11 @@ def run(ctx):
         box += [(1, 18, 5), (2, 22, 0), (2, 19, 0), (1, 24, 0), (5, 0, 0), (-1, 6, 0), (1, -6, 0), (1, 6, -1), (2 ** 31, 0, 0), (1, 6, 2 ** 31),
                 (W + 1, 6, 0), (1, W + 6, 0), (1, 6, W), (W + 2, 21, 2), (2, W + 21, 2), (2, 21, W + 2), (2 ** 63 - 1, 0, 0), (-2 ** 63, 6, 0),
                 (65537, 6, 0), (1, 65542, 0), (257, 6, 0), (1, 262, 0), (1, 6, 256)]
+        # sign-flipped components of every supported triple
+        for (a, b, c) in list(SUPPORTED):
+            for t in ((-a, b, c), (a, -b, c), (a, b, -c)):
+                if t not in box and t not in SUPPORTED:
+                    box.append(t)
         loads = []
         meta = {}
         n = 0
